@@ -474,7 +474,7 @@ struct Case {
     expr: Option<Expr>,
     /// family "generalisation under a binder": (let-expanded form for the model's `acc` request,
     /// well-typed by construction?)
-    acc: Option<(Expr, bool)>,
+    acc: Option<(Option<Expr>, bool)>,
 }
 
 impl Case {
@@ -804,7 +804,15 @@ fn record(case: &Case, v: &Verdict, out: &mut Out, idx: usize) {
     // let-expanded form (only when the real checker gave a verdict)
     if let Some((x, typed)) = &case.acc {
         if v.verdict_given {
-            out.case(&format!("acc {}", sexp::asexp(x)), if v.accepted { "(accept)" } else { "(reject)" });
+            if let Some(x) = x {
+                out.case(&format!("acc {}", sexp::asexp(x)), if v.accepted { "(accept)" } else { "(reject)" });
+            }
+            // B4: the member ITSELF (no let-expansion) against the verified POLYMORPHIC checker
+            // (schemes in the context, generalisation at `let`, instantiation at variables)
+            if let Some(orig) = &case.expr {
+                out.case(&format!("accp {}", sexp::asexp(orig)), if v.accepted { "(accept)" } else { "(reject)" });
+                out.count("genbind:accp-cases");
+            }
             out.count(&format!(
                 "genbind:{}:{}",
                 if *typed { "typed-by-construction" } else { "ill-typed-by-construction" },
